@@ -8,7 +8,8 @@ by its reverse).  TLC
   * explores family S as a state graph (all simple lattice paths, closed into every simple
     polygon up to MaxV vertices of the G x G grid) and enumerates the candidate sets of the
     families H1/H2 (holes), N (nesting to depth 4), M (several outers), C (combs/staircases),
-    X (arbitrary, mostly invalid contours), keeping those that satisfy EpsValidSet;
+    Z/ZH (star-shaped octagons alone, as holes and islands), X (arbitrary, mostly invalid contours,
+    including one- and two-point contours), keeping those that satisfy EpsValidSet;
   * checks GenValid / PathSimple (incremental generator == full predicate), PickOK (Pick's theorem
     ties Area2, Inside, o and h together), RefValid (a reference ear clipper written in the spec
     satisfies ValidTriangulation with exactly the stated count), MutantsRejected;
@@ -28,9 +29,11 @@ import vf, progfam
 PID = 'C10'
 OWNED = ('tri.', 'reuse')
 
-QUICK = ['S45r0', 'S45r1', 'S45r2', 'S45r3', 'S37', 'S54', 'H1', 'H2', 'N', 'M', 'C', 'X']
-THOROUGH = ['S46r0', 'S46r1', 'S46r2', 'S46r3', 'S38', 'S55r0', 'S55r1', 'S55r2', 'S55r3', 'S55r4',
-            'H1big', 'H2big', 'Nbig', 'Mbig', 'Cbig', 'Xbig', 'H1', 'H2', 'M']
+# (MutantsRejected is checked in the small configurations S37/S38/S54/Z*/C*/X*; the large S configurations check
+#  GenValid, PathSimple, PickOK and RefValid)
+QUICK = ['S45r0', 'S45r1', 'S45r2', 'S45r3', 'S37', 'Z2', 'ZH', 'D', 'H1', 'H2', 'N', 'M', 'C', 'X']
+THOROUGH = ['S46r0', 'S46r1', 'S46r2', 'S46r3', 'S55r0', 'S55r1', 'S55r2', 'S55r3', 'S55r4', 'S38', 'S54', 'Z3', 'ZH', 'D',
+            'H1big', 'Nbig', 'Mbig', 'Cbig', 'Xbig', 'H1', 'H2', 'M']
 
 
 # ------------------------------------------------------------------ exact helpers (Python ints)
@@ -381,12 +384,10 @@ def corrupt(rec, how):
     elif how == 3:
         t = t + [t[0]]                               # one triangle twice
     else:
-        if len(t) >= 2:                              # two triangles exchanged a vertex: count and indices stay right
-            t[0][0], t[1][0] = t[1][0], t[0][0]
-            if sorted(map(tuple, t)) == sorted(map(tuple, rec['tris'])):
-                t = t[:-1]
+        if len(t) >= 2 and sorted(t[0]) != sorted(t[1]):
+            t[0] = list(t[1])                        # count and indices stay right: one triangle replaced by a copy of another
         else:
-            t = []
+            t = t[:-1]
     r['tris'] = t
     r['why'] = '-'
     r['ok'] = False
@@ -403,7 +404,7 @@ def trace_validate(chk, recs, tier):
     forced = [r for r in good if len(r['tris']) > 20]
     rest = [r for r in good if len(r['tris']) <= 20]
     rng.shuffle(forced); rng.shuffle(rest)
-    forced = forced[:maxn // 2]
+    forced = forced[:60 if tier == 'quick' else 300]       # TLC needs ~(3T)^2 steps for T triangles
     sample = forced + rest[:maxn - len(forced)]
     neg = bad[:200] + [corrupt(r, k % 5) for k, r in enumerate(sample[:maxn // 4]) if r['valid'] and r['tris']]
     work = '%s/work/%s' % (vf.BUILD, PID)
@@ -449,7 +450,7 @@ def main(tier):
     nfail = judge(chk, cases, results, crashes, args)
     vf.log('[C10] driver pass A: %d cases, %d failing, %d crashes (%.0fs)' % (len(results), nfail, len(crashes), time.time() - chk.t0))
     # the families with holes / nesting / several outers are few: all 21 views for them
-    sub = [c for c in cases if c['fam'] in ('H1', 'H2', 'N', 'M', 'C', 'R')]
+    sub = [c for c in cases if c['fam'] in ('H1', 'H2', 'N', 'M', 'C', 'Z', 'ZH', 'D', 'R')]
     if tier == 'quick':
         sub = sub[::3]
     res2, cr2, recs2, args2 = run_driver(chk, sub, ['--allviews', '--record', '--recevery=400', '--recmaxtri=80'], 'B')
@@ -475,7 +476,7 @@ def main(tier):
                 'lattice polygon of the configured grid/vertex bound up to translation, by TLC BFS); non-trivial = the set has a '
                 'hole / several contours or a vertex that is not strictly convex (the ear clipper decides something); '
                 'traces_validated = recorded (polygons, triangles) pairs on which TLC itself evaluated ValidTriangulation',
-        'samples': [s for s in (pick('S'), pick('H1'), pick('H2'), pick('N'), pick('M'), pick('C'), pick('R')) if s]})
+        'samples': [s for s in (pick('S'), pick('H1'), pick('H2'), pick('N'), pick('M'), pick('C'), pick('Z'), pick('ZH'), pick('D'), pick('R')) if s]})
     chk.assumptions += [
         'lattice inputs (|coordinate| <= 64) mapped to doubles by exact similarities (rotations by 90 degrees, scale 2^-20..2^30, '
         'translation up to 2^30 lattice units, explicit epsilon 1e-9/1e-3 units); validity "within epsilon" is exact there: a '
